@@ -3,7 +3,7 @@
    the concatenation is a statement about LLVM MC's event streams, which are outside the model; it is decided on the implementation
    by harness/c13.py (one known finding). *)
 From Coq Require Import ZArith List Bool Arith.
-From GR Require Import Base.Result IR.State Asm.Model Asm.Proofs.
+From GR Require Import Base.Result IR.State Asm.Model Asm.Proofs Asm.TempPrefix Asm.TempPrefixProofs.
 Import ListNotations.
 Open Scope Z_scope.
 
@@ -45,3 +45,26 @@ Proof. exact chunk_boundary_is_invisible. Qed.
 Theorem C13_events_compose :
   forall t evs1 evs2 s, run t (evs1 ++ evs2) s = (do s1 <- run t evs1 s; run t evs2 s1).
 Proof. exact run_app. Qed.
+
+From Coq Require Import String.
+(* ===== which labels are temporary (Asm/TempPrefix.v: the ABI's prefix and the back end's private prefix, both compared with the
+   implementation for every ABI) ===== *)
+(* InsertionContext.temporary_label gives a label that the assembler's back end treats as temporary, for every ABI of abi.py *)
+Theorem C13_temporary_label_is_temporary : forall isa fmt name,
+  supported isa fmt = true -> mc_is_temporary isa fmt (temporary_label isa fmt name) = true.
+Proof. exact temporary_label_is_temporary. Qed.
+
+(* ... so two insertions of one patch (two suffixes) never give its temporary labels one name *)
+Theorem C13_copies_of_a_temporary_label_never_clash : forall isa fmt name s1 s2,
+  supported isa fmt = true -> s1 <> s2 ->
+  symbol_name isa fmt (temporary_label isa fmt name) s1 <> symbol_name isa fmt (temporary_label isa fmt name) s2.
+Proof. exact temporary_label_copies_never_clash. Qed.
+
+Theorem C13_suffixed_names_differ : forall isa fmt label s1 s2,
+  mc_is_temporary isa fmt label = true -> s1 <> s2 -> symbol_name isa fmt label s1 <> symbol_name isa fmt label s2.
+Proof. exact suffixed_names_differ. Qed.
+
+Example C13_temporary_label_example :
+  temporary_label T_MIPS32 T_ELF "x" = "$Lx"%string /\ symbol_name T_MIPS32 T_ELF "$Lx" "_2" = "$Lx_2"%string /\
+  symbol_name T_IA32 T_PE ".Lx" "_2" = ".Lx"%string.
+Proof. repeat split. Qed.
